@@ -1276,14 +1276,25 @@ def _b_sorted(i, a, k):
     return [x for _, x in out]
 
 
+class LazyFilter:
+    """filter(f, seq): a lazy iterator - the underlying sequence is read when the iteration happens, not when filter() is called
+    (a list emptied in between yields nothing)"""
+
+    def __init__(self, f, seq):
+        self.f, self.seq = f, seq
+
+    def items(self, i):
+        out = []
+        for x in i.iterate(self.seq):
+            keep = ops.truthy(i.call(self.f, [x])) if self.f is not None else ops.truthy(x)
+            if i.ctx.branch(keep):
+                out.append(x)
+        return out
+
+
 def _b_filter(i, a, k):
     f, seq = a
-    out = []
-    for x in i.iterate(seq):
-        keep = ops.truthy(i.call(f, [x])) if f is not None else ops.truthy(x)
-        if i.ctx.branch(keep):
-            out.append(x)
-    return out
+    return LazyFilter(f, seq)
 
 
 def _b_reversed(i, a, k):
